@@ -94,10 +94,12 @@ def statusNot204304 (h : HeadersIn) : Bool :=
 def rhCl (s : Streams) (k : Nat) (h : HeadersIn) : Streams × Option PErr :=
   if (s.stream k).contentLength != .head then
     match h.fields.find? (fun f => f.1 == Http.str "content-length") with
-    | some (_, v :: _) =>
+    | some (_, v :: rest) =>
       match parseU64 v with
       | none => (s, some (PErr.libraryReset (s.stream k).id PROTOCOL_ERROR))
       | some cl =>
+        if rest.any (fun o => parseU64 o != some cl) then (s, some (PErr.libraryReset (s.stream k).id PROTOCOL_ERROR))
+        else
         let s := s.modStream k fun st => { st with contentLength := .remaining cl }
         if h.eos && cl > 0 && statusNot204304 h then (s, some (PErr.libraryReset (s.stream k).id PROTOCOL_ERROR)) else (s, none)
     | _ => (s, none)
